@@ -6,75 +6,149 @@ import (
 
 type entity struct{ name, key int }
 
+// rapid's IntRange / SampledFrom are deliberately biased towards small values
+// and range boundaries; the weights in this file are meant literally, so all
+// choices go through an unbiased draw assembled from fair bits (it still
+// shrinks towards 0 / the first element).
+func uniform(t *rapid.T, n int, label string) int {
+	if n <= 1 {
+		return 0
+	}
+	v := 0
+	for i := 0; i < 12; i++ {
+		if rapid.Bool().Draw(t, label) {
+			v |= 1 << i
+		}
+	}
+	return v % n
+}
+
+// IntN draws an integer uniformly from [lo, hi].
+func IntN(t *rapid.T, lo, hi int, label string) int { return lo + uniform(t, hi-lo+1, label) }
+
+// Pick draws an element of s uniformly.
+func Pick[T any](t *rapid.T, s []T, label string) T { return s[uniform(t, len(s), label)] }
+
 var ekuSets = [][]string{
-	nil, nil, nil, nil,
-	{EKUAny}, {EKUServer}, {EKUServer}, {EKUClient}, {EKUServer, EKUClient}, {EKUNSSGC}, {EKUMSSGC}, {EKUUnknown},
-	{EKUCode}, {EKUEmail, EKUClient}, {EKUUnknown, EKUServer}, {EKUAny, EKUClient},
+	nil, nil, nil, nil, nil, nil, nil, nil, nil, nil,
+	{EKUAny}, {EKUServer}, {EKUServer}, {EKUServer}, {EKUServer, EKUClient}, {EKUServer, EKUClient}, {EKUNSSGC}, {EKUMSSGC},
+	{EKUClient}, {EKUUnknown}, {EKUCode}, {EKUEmail, EKUClient}, {EKUUnknown, EKUServer}, {EKUAny, EKUClient},
 }
 
 // DNSNames are the names leaves may carry.
 var DNSNames = []string{"a.example", "b.example", "*.example"}
 
 func genWindow(t *rapid.T) (nb, na int) {
-	switch rapid.IntRange(0, 9).Draw(t, "win") {
-	case 0, 1, 2, 3, 4: // wide
-		return rapid.IntRange(0, 1).Draw(t, "nb"), rapid.IntRange(NInstants-2, NInstants-1).Draw(t, "na")
-	case 5, 6, 7: // any proper window
-		nb = rapid.IntRange(0, NInstants-2).Draw(t, "nb")
-		return nb, rapid.IntRange(nb+1, NInstants-1).Draw(t, "na")
-	case 8: // single instant
-		nb = rapid.IntRange(0, NInstants-1).Draw(t, "nb")
+	switch IntN(t, 0, 24, "win") {
+	default: // wide
+		return IntN(t, 0, 1, "nb"), IntN(t, NInstants-2, NInstants-1, "na")
+	case 0, 1, 2, 3, 4, 5: // any proper window
+		nb = IntN(t, 0, NInstants-2, "nb")
+		return nb, IntN(t, nb+1, NInstants-1, "na")
+	case 6: // single instant
+		nb = IntN(t, 0, NInstants-1, "nb")
 		return nb, nb
-	default: // reversed
-		na = rapid.IntRange(0, NInstants-2).Draw(t, "na")
-		return rapid.IntRange(na+1, NInstants-1).Draw(t, "nb"), na
+	case 7: // reversed
+		na = IntN(t, 0, NInstants-2, "na")
+		return IntN(t, na+1, NInstants-1, "nb"), na
 	}
 }
 
-// role: 0 root, 1 intermediate, 2 leaf
+// genBody fills in a well-formed body. role: 0 root, 1 intermediate, 2 leaf.
+// CA roles get a usable CA certificate (defects are added separately by
+// Defect, so that a PKI has a few defects rather than one in every chain).
 func genBody(t *rapid.T, c *Cert, role int) {
-	c.Serial = rapid.IntRange(0, 3).Draw(t, "serial")
+	c.Serial = IntN(t, 0, 3, "serial")
 	c.NB, c.NA = genWindow(t)
-	c.EKU = rapid.SampledFrom(ekuSets).Draw(t, "eku")
+	c.EKU = Pick(t, ekuSets, "eku")
 	c.PathLen = -1
 	if role == 2 {
-		c.BC = rapid.SampledFrom([]int{BCAbsent, BCAbsent, BCAbsent, BCNotCA, BCNotCA, BCCA}).Draw(t, "bc")
-		c.KU = rapid.SampledFrom([]int{KUAbsent, KUAbsent, KUNoSign, KUCertSign}).Draw(t, "ku")
-		n := rapid.IntRange(0, 2).Draw(t, "ndns")
+		c.BC = Pick(t, []int{BCAbsent, BCAbsent, BCAbsent, BCNotCA, BCNotCA, BCCA}, "bc")
+		c.KU = Pick(t, []int{KUAbsent, KUAbsent, KUNoSign, KUCertSign}, "ku")
+		n := IntN(t, 0, 2, "ndns")
 		for i := 0; i < n; i++ {
-			c.DNS = append(c.DNS, rapid.SampledFrom(DNSNames).Draw(t, "dns"))
+			c.DNS = append(c.DNS, Pick(t, DNSNames, "dns"))
 		}
 	} else {
-		c.BC = rapid.SampledFrom([]int{BCCA, BCCA, BCCA, BCCA, BCCA, BCCA, BCCA, BCCA, BCCA, BCCA, BCNotCA, BCAbsent}).Draw(t, "bc")
-		c.KU = rapid.SampledFrom([]int{KUAbsent, KUAbsent, KUAbsent, KUCertSign, KUCertSign, KUCertSign, KUCertSign, KUNoSign}).Draw(t, "ku")
-		if rapid.IntRange(0, 11).Draw(t, "v1") == 0 {
-			c.V1 = true
-		}
+		c.BC = BCCA
+		c.KU = Pick(t, []int{KUAbsent, KUAbsent, KUCertSign, KUCertSign, KUCertSign}, "ku")
 	}
 	if c.BC == BCCA {
-		c.PathLen = rapid.SampledFrom([]int{-1, -1, -1, -1, 0, 0, 1, 1, 2}).Draw(t, "pathlen")
+		c.PathLen = Pick(t, []int{-1, -1, -1, -1, -1, -1, 0, 1, 2, 2}, "pathlen")
 	}
-	c.SKI = rapid.SampledFrom([]int{KIDNone, KIDNone, KIDProper, KIDProper, KIDProper, KIDShared}).Draw(t, "ski")
-	c.AKI = rapid.SampledFrom([]int{KIDNone, KIDNone, KIDNone, KIDProper, KIDProper, KIDProper, KIDProper, KIDShared, KIDOther}).Draw(t, "aki")
+	c.SKI = Pick(t, []int{KIDNone, KIDNone, KIDProper, KIDProper, KIDProper, KIDProper, KIDProper, KIDShared}, "ski")
+	c.AKI = Pick(t, []int{KIDNone, KIDNone, KIDNone, KIDProper, KIDProper, KIDProper, KIDProper, KIDProper, KIDProper}, "aki")
 }
 
-// GenCert draws one free-form certificate over nNames names and the given keys.
+// DefectKinds are the ways Defect can damage a certificate.
+var DefectKinds = []string{"not-ca", "no-bc", "ku-no-certsign", "v1", "aki-other", "aki-shared", "ski-shared", "wrong-signer", "wrong-signer", "wrong-signer", "wrong-signer", "other-issuer", "other-issuer", "other-key", "other-key",
+	"eku-client-only", "eku-unknown-only", "pathlen-0", "window-single", "window-reversed", "window-early", "window-late"}
+
+// Defect damages c in one randomly chosen way and returns the kind.
+func Defect(t *rapid.T, c *Cert, nNames int, keyIdx []int) string {
+	kind := Pick(t, DefectKinds, "defect")
+	switch kind {
+	case "not-ca":
+		c.BC, c.PathLen = BCNotCA, -1
+	case "no-bc":
+		c.BC, c.PathLen = BCAbsent, -1
+	case "ku-no-certsign":
+		c.KU = KUNoSign
+	case "v1":
+		c.V1 = true
+	case "aki-other":
+		c.AKI = KIDOther
+	case "aki-shared":
+		c.AKI = KIDShared
+	case "ski-shared":
+		c.SKI = KIDShared
+	case "wrong-signer":
+		c.SignKey = Pick(t, keyIdx, "wrongSigner")
+	case "other-issuer":
+		c.Issuer = IntN(t, 0, nNames-1, "otherIssuer")
+	case "other-key":
+		c.Key = Pick(t, keyIdx, "otherKey")
+	case "eku-client-only":
+		c.EKU = []string{EKUClient}
+	case "eku-unknown-only":
+		c.EKU = []string{EKUUnknown}
+	case "pathlen-0":
+		if c.BC == BCCA {
+			c.PathLen = 0
+		}
+	case "window-single":
+		c.NA = c.NB
+	case "window-reversed":
+		c.NB, c.NA = NInstants-2, 1
+	case "window-early":
+		c.NB, c.NA = 0, 1
+	case "window-late":
+		c.NB, c.NA = NInstants-2, NInstants-1
+	}
+	return kind
+}
+
+// GenCert draws one free-form certificate over nNames names and the given
+// keys, damaged with probability 1/2.
 func GenCert(t *rapid.T, nNames int, keyIdx []int) Cert {
 	c := Cert{
-		Subject: rapid.IntRange(0, nNames-1).Draw(t, "subject"),
-		Key:     rapid.SampledFrom(keyIdx).Draw(t, "key"),
-		Issuer:  rapid.IntRange(0, nNames-1).Draw(t, "issuer"),
-		SignKey: rapid.SampledFrom(keyIdx).Draw(t, "signkey"),
+		Subject: IntN(t, 0, nNames-1, "subject"),
+		Key:     Pick(t, keyIdx, "key"),
+		Issuer:  IntN(t, 0, nNames-1, "issuer"),
+		SignKey: Pick(t, keyIdx, "signkey"),
 	}
-	genBody(t, &c, rapid.IntRange(0, 2).Draw(t, "role"))
+	genBody(t, &c, IntN(t, 0, 2, "role"))
+	if rapid.Bool().Draw(t, "damaged") {
+		Defect(t, &c, nNames, keyIdx)
+	}
 	return c
 }
 
 // GenUniverse draws the name count and key subset of a PKI.
 func GenUniverse(t *rapid.T) (nNames int, keyIdx []int) {
-	nNames = rapid.SampledFrom([]int{2, 3, 3, 3, 4, 5}).Draw(t, "nNames")
-	nk := rapid.SampledFrom([]int{2, 3, 3, 4}).Draw(t, "nKeys")
-	off := rapid.IntRange(0, len(KeyNames)-1).Draw(t, "keyOff")
+	nNames = Pick(t, []int{2, 3, 3, 3, 4, 5}, "nNames")
+	nk := Pick(t, []int{2, 3, 3, 4}, "nKeys")
+	off := IntN(t, 0, len(KeyNames)-1, "keyOff")
 	for i := 0; i < nk; i++ {
 		keyIdx = append(keyIdx, (off+i)%len(KeyNames))
 	}
@@ -84,16 +158,17 @@ func GenUniverse(t *rapid.T) (nNames int, keyIdx []int) {
 // GenPKI draws a small PKI: 1-3 root entities, 0-5 intermediate entities, 1-2
 // leaves, extra cross-signs; every CA certificate is issued by a randomly chosen
 // CA entity (possibly a later one or itself, so loops and self-issued
-// certificates arise), then perturbed (wrong signing key, other issuer name,
-// mismatching key ids, version 1, missing CA flag ...) with small probability.
+// certificates arise); then 0-4 certificates of the PKI are damaged (Defect:
+// wrong signing key, other issuer name, mismatching key ids, version 1, missing
+// CA flag, key usage without certSign, restrictive EKU, odd validity window).
 func GenPKI(t *rapid.T) PKI {
 	nNames, keyIdx := GenUniverse(t)
 	ent := func(label string) entity {
-		return entity{rapid.IntRange(0, nNames-1).Draw(t, label+"Name"), rapid.SampledFrom(keyIdx).Draw(t, label+"Key")}
+		return entity{IntN(t, 0, nNames-1, label+"Name"), Pick(t, keyIdx, label+"Key")}
 	}
-	nr := rapid.SampledFrom([]int{1, 1, 2, 2, 3}).Draw(t, "nRoots")
-	ni := rapid.SampledFrom([]int{0, 1, 1, 2, 2, 3, 3, 4, 5}).Draw(t, "nInter")
-	nl := rapid.SampledFrom([]int{1, 1, 1, 2}).Draw(t, "nLeaves")
+	nr := Pick(t, []int{1, 1, 2, 2, 3}, "nRoots")
+	ni := Pick(t, []int{0, 1, 1, 2, 2, 3, 3, 4, 5}, "nInter")
+	nl := Pick(t, []int{1, 1, 1, 2}, "nLeaves")
 	var roots, inters []entity
 	for i := 0; i < nr; i++ {
 		roots = append(roots, ent("root"))
@@ -105,15 +180,6 @@ func GenPKI(t *rapid.T) PKI {
 
 	var p PKI
 	add := func(c Cert, inRoots, inInter, leaf bool) {
-		// perturbations
-		switch rapid.IntRange(0, 19).Draw(t, "perturb") {
-		case 0:
-			c.SignKey = rapid.SampledFrom(keyIdx).Draw(t, "wrongSigner")
-		case 1:
-			c.Issuer = rapid.IntRange(0, nNames-1).Draw(t, "otherIssuer")
-		case 2:
-			c.Key = rapid.SampledFrom(keyIdx).Draw(t, "otherKey")
-		}
 		idx := len(p.Certs)
 		p.Certs = append(p.Certs, c)
 		if inRoots {
@@ -126,41 +192,65 @@ func GenPKI(t *rapid.T) PKI {
 			p.Leaves = append(p.Leaves, idx)
 		}
 	}
-	coin := func(label string, outOf int) bool { return rapid.IntRange(0, outOf-1).Draw(t, label) == 0 }
+	coin := func(label string, outOf int) bool { return IntN(t, 0, outOf-1, label) == 0 }
 
 	for _, e := range roots {
 		c := Cert{Subject: e.name, Key: e.key, Issuer: e.name, SignKey: e.key}
 		genBody(t, &c, 0)
-		add(c, !coin("rootNotTrusted", 12), coin("rootAlsoInter", 5), coin("rootIsTarget", 8))
+		add(c, !coin("rootNotTrusted", 12), coin("rootAlsoInter", 5), coin("rootIsTarget", 25))
 	}
-	for _, e := range inters {
-		n := rapid.SampledFrom([]int{1, 1, 1, 2}).Draw(t, "nCertsOfInter")
+	// shape of the intermediate layer: 0 free (any CA entity issues, loops possible), 1 mostly issued by roots,
+	// 2 a ladder root <- inter[0] <- inter[1] ... (long chains, path-length limits bite)
+	shape := Pick(t, []int{0, 0, 1, 1, 2}, "shape")
+	for k, e := range inters {
+		n := Pick(t, []int{1, 1, 1, 2}, "nCertsOfInter")
 		for j := 0; j < n; j++ {
-			iss := rapid.SampledFrom(cas).Draw(t, "issuerOfInter")
+			var iss entity
+			switch {
+			case shape == 2 && k > 0 && !coin("ladderBreak", 6):
+				iss = inters[k-1]
+			case shape >= 1 && !coin("notFromRoot", 4):
+				iss = Pick(t, roots, "issuerOfInter")
+			default:
+				iss = Pick(t, cas, "issuerOfInter")
+			}
 			c := Cert{Subject: e.name, Key: e.key, Issuer: iss.name, SignKey: iss.key}
 			genBody(t, &c, 1)
-			add(c, coin("interTrusted", 12), !coin("interMissing", 12), coin("interIsTarget", 8))
+			add(c, coin("interTrusted", 12), !coin("interMissing", 15), coin("interIsTarget", 10))
 		}
 	}
 	// cross-signs: an existing CA entity certified by another CA entity
-	nx := rapid.SampledFrom([]int{0, 0, 1, 1, 2}).Draw(t, "nCross")
+	nx := Pick(t, []int{0, 0, 1, 1, 2}, "nCross")
 	for i := 0; i < nx; i++ {
-		e := rapid.SampledFrom(cas).Draw(t, "crossSubject")
-		iss := rapid.SampledFrom(cas).Draw(t, "crossIssuer")
+		e := Pick(t, cas, "crossSubject")
+		iss := Pick(t, cas, "crossIssuer")
 		c := Cert{Subject: e.name, Key: e.key, Issuer: iss.name, SignKey: iss.key}
 		genBody(t, &c, 1)
 		add(c, coin("crossTrusted", 15), true, false)
 	}
 	for i := 0; i < nl; i++ {
 		e := ent("leaf")
-		iss := rapid.SampledFrom(cas).Draw(t, "issuerOfLeaf")
+		var iss entity
+		switch {
+		case shape == 2 && len(inters) > 0 && !coin("leafNotAtEnd", 4):
+			iss = inters[len(inters)-1]
+		case len(inters) > 0 && !coin("leafFromAnyCA", 4):
+			iss = Pick(t, inters, "issuerOfLeaf")
+		default:
+			iss = Pick(t, cas, "issuerOfLeaf")
+		}
 		c := Cert{Subject: e.name, Key: e.key, Issuer: iss.name, SignKey: iss.key}
 		genBody(t, &c, 2)
 		add(c, coin("leafTrusted", 20), coin("leafInInter", 15), true)
 	}
+	// a few defects per PKI
+	nd := Pick(t, []int{0, 0, 1, 1, 1, 2, 2, 3, 4}, "nDefects")
+	for i := 0; i < nd; i++ {
+		Defect(t, &p.Certs[IntN(t, 0, len(p.Certs)-1, "defectOn")], nNames, keyIdx)
+	}
 	// duplicates by value
 	if coin("dup", 6) {
-		i := rapid.IntRange(0, len(p.Certs)-1).Draw(t, "dupOf")
+		i := IntN(t, 0, len(p.Certs)-1, "dupOf")
 		idx := len(p.Certs)
 		p.Certs = append(p.Certs, p.Certs[i])
 		if coin("dupInRoots", 2) {
